@@ -2,6 +2,7 @@
 mod borrow;
 mod collect;
 mod config;
+mod docs;
 mod own;
 mod slices;
 mod write;
@@ -20,6 +21,7 @@ fn main() {
         "config" => config::run(&input),
         "collect" => collect::run(&input),
         "borrow" => borrow::run(&input),
+        "docs" => docs::run(&input),
         other => {
             eprintln!("unknown area {other}");
             std::process::exit(2);
